@@ -144,11 +144,12 @@ def h_permute_tw(q0: int, q1: int) -> bool:
     conds.append(chrun.Condition("permute_tw__reach", chrun.twin(tw, "permute_tw"),
                                  timeout=60, expect="refuted"))
 
-    npool = 5 if quick else 8
+    npool = 8
+    nmax = 17       # beyond two pool extensions for every space (7 / 8 base letters)
     for nused in range(0, (2 if quick else 3) + 1):
         for space in (["occ"] if quick else ["occ", "virt", "general"]):
             args = ", ".join(["n: int"] + [f"u{q}: int" for q in range(nused)])
-            pre = " and ".join(["0 <= n <= 3"] + [f"0 <= u{q} < {npool}" for q in range(nused)])
+            pre = " and ".join([f"0 <= n <= {nmax}"] + [f"0 <= u{q} < {npool}" for q in range(nused)])
             used = ", ".join(f"_POOLN[u{q}]" for q in range(nused))
             letter = {"occ": "i", "virt": "a", "general": "p"}[space]
             h3 = f"""
@@ -166,7 +167,7 @@ def h_lowest_{space}_{nused}({args}) -> bool:
     used = [{used}]
     res = get_lowest_avail_indices(n, list(used), "{space}")
     pool = []
-    for suffix in range(0, 4):
+    for suffix in range(0, 5):
         for ch in _B:
             pool.append(ch if suffix == 0 else ch + str(suffix))
     expect = [x for x in pool if x not in used][:n]
